@@ -141,6 +141,12 @@ def api_calls(c, C, exe, env, points):
 def run(c):
     g = gen_consts.generate(c.snap)
     C = g["consts"]
+    # the parameter checks of the three set_fec_parameters functions and of the matrix construction, regenerated from the source;
+    # Properties_C09.v proves that they are the decision functions accept_* the theorems are about (ParamsTie.v)
+    import gen_params
+    gp = gen_params.generate(c.snap)
+    for pbm in gp["problems"]:
+        c.proof_failed.append({"translator": pbm})
     c.prove(["Properties_C09.v"])
     pts = [p for p in grid(C)]
     # allocation guard: points the library accepts although outside the limits can ask for gigabytes
@@ -219,4 +225,6 @@ def run(c):
                      "each tested pointer NULL or not (about 230 calls per configuration, shuffled); status compared with coq/ApiArgs.v and with the documented domain; "
                      "afterwards all three sessions must still encode / decode the block")
     c.cov["samples"] = [reqs[0], reqs[len(reqs) // 2], greq[0] if greq else ""]
-    c.trusted = vlib.BASE_TRUST + ["Params.v: hand-written mirror of the checks of the three set_fec_parameters functions; limits from gen/GenConsts.v (compiler reads the headers)"]
+    c.trusted = vlib.BASE_TRUST + ["Params.v: decision functions; proved equal (ParamsTie.v) to gen/GenParams.v, which tools/gen_params.py regenerates on every run from the validation prefixes of the "
+                                     "three set_fec_parameters functions and of of_create_pchck_matrix_rfc5170_compliant (clang + c2gallina); limits from gen/GenConsts.v (compiler reads the headers)",
+                                     "gen_params.py: what ends a validation prefix (first allocation / matrix construction call) is checked against the expected statement; a test placed behind it would be invisible to the translator and is left to the grid"]
